@@ -195,6 +195,10 @@ def h_int_history(c, f, g, rx, ry):
     compactsym.install()
     found = [t for t in shared.discover() if not t[0].endswith(".origins")]
     snap = _snapshot(found)
+    # module-level dicts become HookedDicts: lookups with symbolic keys are decided by the solver even when the stored key
+    # is concrete (python's hashing would otherwise never compare them)
+    hooked, undo_hooks = shared.hook_all([t for t in found if isinstance(t[2], dict)])
+    snap = snap + _snapshot([(n, None, h) for n, h in hooked])
     _, x = shapes.symid(c, "x", rx)
     _, y = shapes.symid(c, "y", ry)
     try:
@@ -213,6 +217,7 @@ def h_int_history(c, f, g, rx, ry):
             cold = ("raise", "ValueError")
     finally:
         _restore(snap)
+        undo_hooks()
     if warm[0] != cold[0]:
         c.fail("history-independent-outcome", info={"f": f, "g": g})
         return
